@@ -1580,6 +1580,12 @@ class Interp:
             v = getattr(obj, name)
         except AttributeError as ex:
             raise PyRaise(SExc(AttributeError, ex.args)) from None
+        # contract-file hook `module_objects = {"<module name>.<attribute>": model value}`: a module-level singleton
+        # OBJECT of the repository (e.g. `urwid.text_layout.default_layout`) that the contract file models as an
+        # opaque individual; without an entry the real object is returned as before
+        mo = getattr(getattr(self.task, "c", None), "module_objects", None)
+        if mo and inspect.ismodule(obj) and f"{obj.__name__}.{name}" in mo:
+            return mo[f"{obj.__name__}.{name}"]
         return v
 
     def obj_getattr(self, st, obj: SObj, name):
